@@ -1242,6 +1242,132 @@ Proof.
     by destruct (exec_all _ _ _ _).
 Qed.
 
+Lemma jinert_pre s0 x st plogs nticks st4 :
+  LostB L st → all_current st → jinert s0 x st → (∀ a, plogs a = true) → pre_schedule P plogs nticks st = Some st4 →
+  LostX L st4 ∧ jinert s0 x st4 ∧ all_current st4 ∧ f_hist st4 = f_hist st ∧
+  d_tick (f_db st4) = d_tick (f_db st) + N.of_nat nticks * p_step P ∧ d_shards (f_db st4) = d_shards (f_db st) ∧
+  (∀ s rid n', rec_of (d_view (f_db st4)) s rid = Some n' →
+     (∃ n, rec_of (d_view (f_db st)) s rid = Some n ∧ r_first n' = r_first n ∧
+        (((∃ a fh, f_hosts st !! a = Some fh ∧ runs_on fh s rid = true) ∧ r_tick n' = d_tick (f_db st)) ∨
+         ((∀ a fh, f_hosts st !! a = Some fh → runs_on fh s rid = false) ∧ r_tick n' = r_tick n))) ∨
+     ((rec_of (d_view (f_db st)) s rid = None ∨ ∀ h, f_hist st !! s = Some h → cur_members h !! rid = None) ∧
+      r_first n' = d_tick (f_db st) ∧
+      ((∀ a fh, f_hosts st !! a = Some fh → runs_on fh s rid = false) → r_tick n' = 0))) ∧
+  (∀ a fh h, f_hosts st !! a = Some fh → d_hosts (f_db st4) !! a = Some h → ∀ k, k ∈ h_plog h → is_Some (fh_reps fh !! k)) ∧
+  (∀ b, is_Some (d_hosts (f_db st4) !! b) → is_Some (f_hosts st !! b) ∨ is_Some (d_hosts (f_db st) !! b)) ∧
+  (∀ b s rid, mkey (f_hist st) (s, rid) → member_running (f_hosts st) s rid b = true → member_running (f_hosts st4) s rid b = true) ∧
+  (∀ b fh4 k, f_hosts st4 !! b = Some fh4 → is_Some (fh_reps fh4 !! k) → (∃ fh, f_hosts st !! b = Some fh ∧ is_Some (fh_reps fh !! k)) ∨ k = (s0, x)) ∧
+  (∀ b, is_Some (f_hosts st4 !! b) ↔ is_Some (f_hosts st !! b)) ∧
+  (∀ a q, nonout st4 a q → f_hosts st4 !! a = None).
+Proof.
+  intros (HI & HP & Hoh) Hcur0 Hin Hpl. unfold pre_schedule. set (t := d_tick (f_db st)).
+  assert (Hl : ∀ a, a ∈ host_addrs st → is_Some (f_hosts st !! a)) by (intros a; apply host_addrs_elem).
+  destruct (lostb_reports L P plogs (host_addrs st) st HI HP (host_addrs_nodup st) Hl) as
+    (st1 & E1 & [HI1 HP1] & Ho1a & Ho1b & Hsub1 & Hhi1 & Hse1 & Ht1 & Hsh1 & Hho1 & Hho1' & Hv1 & Hst1 & Hsp1 & Hot1).
+  pose proof (reports_recs plogs (host_addrs st) st st1 HI HP (host_addrs_nodup st) Hl E1) as (Htk & Hplog & Hkeys).
+  pose proof (lostb_reports_requests L P plogs (host_addrs st) st st1 HI HP (host_addrs_nodup st) Hl E1) as Hrq1.
+  rewrite E1.
+  assert (Hdom1 : ∀ a, is_Some (f_hosts st1 !! a) ↔ is_Some (f_hosts st !! a)).
+  { intros a. destruct (f_hosts st !! a) as [fh|] eqn:Ha.
+    - destruct (Hho1 a fh) as (fh' & -> & _); [apply host_addrs_elem; by eexists|done|]. split; intros _; by eexists.
+    - rewrite Hho1', Ha; [done|]. intros Hin0. apply host_addrs_elem in Hin0. rewrite Ha in Hin0. by destruct Hin0. }
+  assert (Hcur1 : all_current st1).
+  { intros s h c1 Hh1 Hc1. rewrite Hhi1 in Hh1. destruct (ml_members _ _ _ HP s h Hh1) as (c & Hc & Hcase & _).
+    destruct (Hv1 s h c Hh1 Hc) as (c' & Hc' & _ & Hkeep & Hup). assert (c' = c1) as -> by congruence.
+    destruct Hcase as [Hcc|(v & M & M' & x9 & rest & Hb)]; [by apply Hkeep|]. apply Hup.
+    destruct (ml_behind _ _ _ HP s h c v M M' x9 rest Hh1 Hc Hb) as (_ & _ & a & fh & rid & lr & Hfh & Hk & Hrun & Hver).
+    exists a, fh, rid, lr. split; [apply host_addrs_elem; by eexists|]. split; [done|]. split; [done|]. split; [done|].
+    destruct Hb as (-> & _). by rewrite Hver. }
+  assert (HX1 : LostX L st1).
+  { split; [split; [done|split; [done|]]|].
+    - intros a Ha. apply Hdom1. destruct (decide (a ∈ host_addrs st)) as [Hin0|Hnin]; [by apply host_addrs_elem|].
+      apply Hoh. rewrite <- (Ho1b a Hnin). exact Ha.
+    - intros s h c v M M' x9 rest Hh Hc Hb. exfalso. pose proof (Hcur1 s h c Hh Hc) as Hcc. destruct Hb as (-> & Hv & _). cbn in Hcc. lia. }
+  assert (Hin1 : jinert s0 x st1).
+  { intros a q Hq. unfold pendJ, pendI. rewrite Hhi1. destruct (Hin a q (Hsub1 a q Hq)) as [[Hm Hc]|(Hg & Hs & Hi & Hhost)].
+    - left. split; [done|]. intros Hcq. destruct (Hc Hcq) as [? ?]. split; [done|]. by apply Hdom1.
+    - right. split; [done|]. split; [done|]. split; [done|]. by apply Hdom1. }
+  (* the NodeHosts execute *)
+  destruct (steps P st1 ((λ a, EExec a true) <$> host_addrs st1)) as [st2|] eqn:E2; [|done].
+  destruct (lostx_execs L P (host_addrs st1) st1 st2 HX1 E2) as (HX2 & Hd2 & Hq2).
+  destruct (join_execs s0 x (host_addrs st1) st1 st2 HX1 Hin1 (host_addrs_nodup st1) E2) as (Hin2 & Hhi2 & Hrun2 & Hk2 & Hj2).
+  (* Raft catches up *)
+  destruct (steps P st2 (catch_up_events st2)) as [st3|] eqn:E3; [|done].
+  destruct (lostx_learns L P st2 st3 HX2 E3) as (HX3 & Hd3 & Hhi3 & Hf3).
+  pose proof (steps_pres P (λ stx, LostX L stx ∧ f_hist stx = f_hist st2 ∧
+      (∀ b s rid, member_running (f_hosts st2) s rid b = true → member_running (f_hosts stx) s rid b = true) ∧
+      (∀ b fh' k, f_hosts stx !! b = Some fh' → is_Some (fh_reps fh' !! k) → ∃ fh, f_hosts st2 !! b = Some fh ∧ is_Some (fh_reps fh !! k)))
+      (catch_up_events st2)) as Hex.
+  destruct (Hex) with (st := st2) (st' := st3) as (_ & _ & Hrun3 & Hk3); [| |done|].
+  { intros stx ev sty Hev (HXx & Hhx & Hrx & Hkx) E. apply catch_up_members in Hev as (a & s & r & v & -> & Hm). rewrite <- Hhx in Hm.
+    destruct (lostx_learn L P stx a s r v sty HXx Hm E) as (HXy & _ & Hhy & _).
+    destruct HXx as [(HIx & _) _]. destruct (learn_frame P stx a s r v sty HIx Hm E) as (Hr & Hk).
+    split; [done|]. split; [congruence|]. split.
+    - intros b s9 rid Hrb. apply Hr. by apply Hrx.
+    - intros b fh' k Hb Hkk. destruct (Hk b fh' k Hb Hkk) as (fh0 & Hfh0 & Hk0). by apply (Hkx b fh0 k). }
+  { split; [done|]. split; [done|]. split; [done|]. intros b fh' k Hb Hkk. by exists fh'. }
+  clear Hex.
+  (* time passes *)
+  destruct (steps P st3 (replicate nticks ETick)) as [st4'|] eqn:E4; [|done]. intros [= ->].
+  destruct (lostx_ticks L P nticks st3 st4 HX3 E4) as (HX4 & Hd4 & Hho4 & Hhi4).
+  set (T := d_tick (f_db st1) + N.of_nat nticks * p_step P).
+  assert (Hdb : f_db st4 = set_tick (f_db st1) T) by (rewrite Hd4, Hd3, Hd2; done).
+  assert (Hhist4 : f_hist st4 = f_hist st) by congruence.
+  assert (Hdom4 : ∀ b, is_Some (f_hosts st4 !! b) ↔ is_Some (f_hosts st !! b)).
+  { intros b. rewrite Hho4, <- Hdom1. specialize (Hq2 b). specialize (Hf3 b). destruct (f_hosts st1 !! b) as [fh1|].
+    - destruct Hq2 as (fh2 & Hfh2 & _). rewrite Hfh2 in Hf3. destruct Hf3 as (fh3 & -> & _). split; intros _; by eexists.
+    - rewrite Hq2 in Hf3. rewrite Hf3. done. }
+  assert (Hview4 : d_view (f_db st4) = d_view (f_db st1)) by (by rewrite Hdb).
+  assert (Hkeys4 : ∀ b fh4 k, f_hosts st4 !! b = Some fh4 → is_Some (fh_reps fh4 !! k) → (∃ fh, f_hosts st !! b = Some fh ∧ is_Some (fh_reps fh !! k)) ∨ k = (s0, x)).
+  { intros b fh4 k Hb Hk. rewrite Hho4 in Hb. destruct (Hk3 b fh4 k Hb Hk) as (fh2 & Hfh2 & Hkk2). destruct (Hk2 b fh2 k Hfh2 Hkk2) as [(fh1 & Hfh1 & Hkk1)|?]; [|by right]. left.
+    destruct (f_hosts st !! b) as [fh|] eqn:Hfb.
+    - destruct (Hho1 b fh) as (fh1' & Hfh1' & Hr1); [apply host_addrs_elem; by eexists|done|]. assert (fh1' = fh1) as -> by congruence. exists fh. by rewrite <- Hr1.
+    - exfalso. assert (is_Some (f_hosts st !! b)) as [? ?] by (apply Hdom1; by eexists). congruence. }
+  split; [done|].
+  assert (Hin4 : jinert s0 x st4).
+  { intros a q Hq. assert (Hq2' : nonout st2 a q).
+    { destruct Hq as [(qs & Hl0 & Hi0)|(fh4 & Hl0 & Hi0)].
+      - left. exists qs. rewrite Hd4, Hd3 in Hl0. done.
+      - right. rewrite Hho4 in Hl0. specialize (Hf3 a). destruct (f_hosts st2 !! a) as [fh2|]; [|congruence]. destruct Hf3 as (fh3 & Hfh3 & Hq3).
+        assert (fh3 = fh4) as -> by congruence. exists fh2. split; [done|]. by rewrite <- Hq3. }
+    assert (Hdom2 : is_Some (f_hosts st2 !! a) → is_Some (f_hosts st4 !! a)).
+    { intros [fh2 Hfh2]. rewrite Hho4. specialize (Hf3 a). rewrite Hfh2 in Hf3. destruct Hf3 as (fh3 & -> & _). by eexists. }
+    unfold pendJ, pendI. rewrite Hhi4, Hhi3. destruct (Hin2 a q Hq2') as [[Hm Hc]|(Hg & Hs & Hi & Hhost)].
+    - left. split; [done|]. intros Hcq. destruct (Hc Hcq) as [? ?]. split; [done|]. by apply Hdom2.
+    - right. split; [done|]. split; [done|]. split; [done|]. by apply Hdom2. }
+  split; [done|].
+  split. { intros s h c Hh Hc. rewrite Hview4 in Hc. rewrite Hhi4, Hhi3, Hhi2 in Hh. by apply (Hcur1 s). }
+  split; [done|]. split. { rewrite Hdb. cbn [set_tick d_tick]. unfold T. by rewrite Ht1. }
+  split; [rewrite Hdb; cbn [set_tick d_shards]; exact Hsh1|].
+  split.
+  { intros s rid n' Hn'. rewrite Hview4 in Hn'. destruct (Htk s rid n' Hn') as [(n & Hn & Hf & Hcase)|(Hnone & Hf & Hcase)].
+    - left. exists n. split; [done|]. split; [done|]. destruct Hcase as [[(a & fh & _ & Hfh & Hro) Htn]|[Hno Htn]].
+      + left. split; [by exists a, fh|done].
+      + right. split; [|done]. intros a fh Hfh. apply (Hno a fh); [apply host_addrs_elem; by eexists|done].
+    - right. split; [done|]. split; [done|]. intros Hno. apply Hcase. intros a fh _ Hfh. by apply (Hno a fh). }
+  split.
+  { intros a fh h Hfh Hh k Hk. rewrite Hdb in Hh. cbn [set_tick d_hosts] in Hh. apply (Hplog a fh h); [apply host_addrs_elem; by eexists|apply Hpl|done|done|done]. }
+  split.
+  { intros b Hb. rewrite Hdb in Hb. cbn [set_tick d_hosts] in Hb. destruct (Hkeys b Hb) as [Hinb|Hold]; [left; by apply host_addrs_elem|by right]. }
+  split.
+  { intros b s rid Hmk Hrb. rewrite Hho4. apply Hrun3, Hrun2; [by rewrite Hhi1|].
+    apply running_runs_on in Hrb as (fh & Hfh & Hro).
+    destruct (Hho1 b fh) as (fh1 & Hfh1 & Hr1); [apply host_addrs_elem; by eexists|done|].
+    unfold member_running. rewrite Hfh1. destruct (ml_hosts _ _ _ HP1 b fh1 Hfh1) as [-> _]. cbn. unfold runs_on in Hro. by rewrite Hr1. }
+  split; [exact Hkeys4|]. split; [exact Hdom4|].
+  (* nothing is pending for a NodeHost *)
+  intros a q Hq. destruct (f_hosts st4 !! a) as [fh4|] eqn:Ha4; [|done]. exfalso.
+  rewrite Hho4 in Ha4. specialize (Hf3 a). specialize (Hq2 a).
+  destruct (f_hosts st2 !! a) as [fh2|] eqn:Ha2; [|congruence]. destruct Hf3 as (fh3 & Hfh3 & Hq3). assert (fh3 = fh4) as -> by congruence.
+  destruct (f_hosts st1 !! a) as [fh1|] eqn:Ha1; [|congruence]. destruct Hq2 as (fh2' & Hfh2' & Hqq2). assert (fh2' = fh2) as -> by congruence.
+  assert (Hin1' : a ∈ host_addrs st1) by (apply host_addrs_elem; by eexists).
+  assert (Hin0 : a ∈ host_addrs st) by (apply host_addrs_elem, Hdom1; by eexists).
+  rewrite decide_True in Hqq2 by done.
+  destruct Hq as [(qs & Hl0 & _)|(fh & Hl0 & Hinq)].
+  - rewrite Hdb in Hl0. cbn [set_tick d_requests] in Hl0. rewrite (Hrq1 a Hin0) in Hl0. done.
+  - rewrite Hho4, Hfh3 in Hl0. injection Hl0 as <-. rewrite Hq3, Hqq2 in Hinq. by apply elem_of_nil in Hinq.
+Qed.
+
 Lemma join_pre s0 x tt st plogs nticks st4 :
   LostB L st → all_current st → jinert s0 x st → (∃ q, nonout st tt q ∧ good_join (f_hist st) tt q ∧ q_shard q = s0 ∧ q_inst q = x) → (∀ a, plogs a = true) → pre_schedule P plogs nticks st = Some st4 →
   LostX L st4 ∧ jinert s0 x st4 ∧ all_current st4 ∧ member_running (f_hosts st4) s0 x tt = true ∧ f_hist st4 = f_hist st ∧
@@ -1787,6 +1913,253 @@ Proof.
     + injection Heq as -> ->. exists tt, h0. rewrite Ehi. split; [done|]. unfold h0. cbn [cur_members snd]. by rewrite lookup_insert.
   - intros a Ha. rewrite Ed in Ha. cbn [set_requests d_hosts] in Ha. rewrite Eh. apply Hdom4. destruct (Hdbk4 a Ha) as [?|?]; [done|by apply (sc_dbhosts _ _ _ _ _ HB)].
 Qed.
+
+(* the state after the round in which the new member has reported: the view shows one member more than the shard
+   definition asks for, one of them (the lost one) failed - the DELETE of the lost member is pending, live *)
+Definition pendD (s0 : N) (st : fstate) (a : N) (q : request) : Prop :=
+  pendI st a q ∨
+  (is_delete q = true ∧ q_shard q = s0 ∧ lchange (nonout st) (f_hosts st) (f_hist st) a q ∧ vready (f_db st) q).
+
+Record StageE (s0 f0 x t : N) (st : fstate) : Prop := mkStageE {
+  se_b : LostB L st;
+  se_cur : all_current st;
+  se_pend : ∀ a q, nonout st a q → pendD s0 st a q;
+  se_live : ∃ a q m, nonout st a q ∧ is_delete q = true ∧ q_shard q = s0 ∧ q_members q = [f0] ∧
+              lchange (nonout st) (f_hosts st) (f_hist st) a q ∧ member st s0 m a ∧ ¬ L s0 m;
+  se_single : ∀ s f, L s f → s = s0 ∧ f = f0;
+  se_lost : L s0 f0;
+  se_mem : ∃ (v : N) (M : gmap N N) (hs0 : list hentry),
+      f_hist st !! s0 = Some (((v + 1, <[x := t]> M) : hentry) :: (v, M) :: hs0) ∧ M !! x = None ∧
+      size M = shard_size (f_db st) s0 ∧ (3 ≤ size M)%nat ∧ is_Some (M !! f0);
+  se_stamped : ∀ s c rid n, d_view (f_db st) !! s = Some c → s_reps c !! rid = Some n → r_tick n ≠ 0;
+  se_nodata : ∀ s rid, L s rid → ∀ a fh, f_hosts st !! a = Some fh → fh_reps fh !! (s, rid) = None;
+  se_run : ∀ s rid a, member st s rid a → ¬ L s rid → member_running (f_hosts st) s rid a = true;
+  se_clean : ∀ a fh s rid lr, f_hosts st !! a = Some fh → fh_reps fh !! (s, rid) = Some lr → ∃ b, member st s rid b;
+  se_dbhosts : ∀ a, is_Some (d_hosts (f_db st) !! a) → is_Some (f_hosts st !! a) }.
+
+Theorem lost_stage_delete s0 f0 x tt st st' plogs nticks o :
+  StageD s0 f0 x tt st → (∀ a, plogs a = true) → N.of_nat nticks * p_step P < p_ttl P →
+  (∀ s, is_Some (f_hist st !! s) → ∃ a, spare st a s) → o ≠ OCrash →
+  (∀ st4, pre_schedule P plogs nticks st = Some st4 → fresh_ok st4 (ESchedule o)) →
+  p_ttl P < d_tick (f_db st) - mem_tick st s0 f0 →
+  healthy_round P plogs nticks o st = Some st' →
+  ∃ b, o = OBatch b ∧ StageE s0 f0 x tt st' ∧ f_hist st' = f_hist st ∧
+    d_tick (f_db st') = d_tick (f_db st) + N.of_nat nticks * p_step P.
+Proof.
+  intros HB Hpl Httl Hsp Hnc Hfr Hover Hr. pose proof (sd_b _ _ _ _ _ HB) as HLB. pose proof HLB as (HI & HP & Hoh).
+  assert (Hin : jinert s0 x st) by (intros a q Hq; exact (sd_pend _ _ _ _ _ HB a q Hq)).
+  assert (Hne : o ≠ OError).
+  { apply (round_no_error P st st' plogs nticks o HI); [|done|done|done]. intros a fh Ha. by destruct (ml_hosts _ _ _ HP a fh Ha). }
+  rewrite healthy_round_pre in Hr. destruct (pre_schedule P plogs nticks st) as [st4|] eqn:Epre; [|done].
+  destruct (jinert_pre s0 x st plogs nticks st4 HLB (sd_cur _ _ _ _ _ HB) Hin Hpl Epre) as
+    (HX4 & Hin4 & Hcur4 & Hhi4 & Htick4 & Hsh4 & Hrec4 & Hplog4 & Hdbk4 & Hrun4 & Hkeys4 & Hdom4 & Hnoh4).
+  specialize (Hfr st4 eq_refl).
+  destruct (fstep P st4 (ESchedule o)) as [st5| |] eqn:E5; try done. injection Hr as <-.
+  destruct HX4 as [(HI4 & HP4 & Hoh4) Hnc4].
+  cbn [fstep] in E5. destruct (allowed P (ctx_of_db (f_db st4)) o) eqn:Hal; [|done].
+  destruct o as [b| |]; [|done|done]. exists b.
+  set (C := ctx_of_db (f_db st4)) in *. pose proof (loopinv_ctx_wf st4 HI4) as Hwf. fold C in Hwf.
+  set (t := d_tick (f_db st)) in *.
+  destruct (sd_mem _ _ _ _ _ HB) as (v & M & hs0 & Hh0 & Hxn & Hsz0 & H30 & Hf0in).
+  destruct (sd_wait _ _ _ _ _ HB) as (c0 & n0 & Hc0 & Hn0 & Hn0t & Hn0f). split; [done|].
+  set (h0 := ((v + 1, <[x := tt]> M) : hentry) :: (v, M) :: hs0) in *.
+  pose proof (sd_xrun _ _ _ _ _ HB) as Hxr. apply running_runs_on in Hxr as (fhx & Hfhx & Hrox).
+  assert (Hpos : 0 < t) by apply (ml_time _ _ _ HP).
+  (* the keys of the view after the reports *)
+  assert (Hkeys : ∀ s c rid n, d_view (f_db st4) !! s = Some c → s_reps c !! rid = Some n →
+            ∃ h, f_hist st !! s = Some h ∧ cur_members h !! rid = Some (r_addr n) ∧ r_id n = rid).
+  { intros s c rid n Hc Hn. destruct (ml_viewdef _ _ _ HP4 s) as [_ [h Hh]]; [by eexists|].
+    destruct (calm_view st4 s h c HI4 Hh Hc (Hcur4 s h c Hh Hc)) as (HM & _ & Hids). exists h. rewrite <- Hhi4. split; [done|].
+    split; [rewrite <- HM, lookup_fmap, Hn; done|by destruct (Hids rid n Hn)]. }
+  assert (KF : ∀ s rid n', rec_of (d_view (f_db st4)) s rid = Some n' → is_Some (rec_of (d_view (f_db st)) s rid)).
+  { intros s rid n' Hn'. apply rec_of_Some in Hn' as (c4 & Hc4 & Hn4). destruct (Hkeys s c4 rid n' Hc4 Hn4) as (h & Hh & _).
+    destruct (ml_members _ _ _ HP s h Hh) as (c & Hc & _).
+    destruct (current_same_keys st st4 s h c c4 rid HI HI4 Hhi4 Hh Hc Hc4) as [n1 Hn1];
+      [by apply (sd_cur _ _ _ _ _ HB s)|apply (Hcur4 s); [by rewrite Hhi4|done]|by eexists|].
+    exists n1. apply rec_of_Some. eauto. }
+  (* the classes of the records *)
+  assert (Hcl : ∀ s c rid n, d_view (f_db st4) !! s = Some c → s_reps c !! rid = Some n →
+            r_tick n = t ∨
+            (L s rid ∧ r_tick n ≠ 0 ∧ (∀ hh, d_hosts (f_db st4) !! r_addr n = Some hh → (s, rid) ∉ h_plog hh) ∧ r_tick n = mem_tick st s rid)).
+  { intros s c rid n Hc Hn. assert (Hrec : rec_of (d_view (f_db st4)) s rid = Some n) by (apply rec_of_Some; eauto).
+    destruct (Hkeys s c rid n Hc Hn) as (h & Hh & Hm & _).
+    destruct (Hrec4 s rid n Hrec) as [(n1 & Hn1 & Hf & [[_ Htn]|[Hno Htn]])|(Hnone & Hf & Htn)].
+    - by left.
+    - pose proof Hn1 as Hn1'. apply rec_of_Some in Hn1' as (c1 & Hc1 & Hk1).
+      destruct (decide ((s, rid) = (s0, x))) as [Heq|Hneq].
+      { exfalso. injection Heq as -> ->. rewrite (Hno tt fhx Hfhx) in Hrox. done. }
+      right. pose proof (sd_stamped _ _ _ _ _ HB s c1 rid n1 Hc1 Hk1 Hneq) as Hnz.
+      assert (Hl0 : L s rid).
+      { destruct (Ldec s rid) as [?|HnL]; [done|]. exfalso.
+        assert (Hmm : member st s rid (r_addr n)) by (by exists h).
+        pose proof (sd_run _ _ _ _ _ HB s rid _ Hmm HnL ltac:(by exists n1)) as Hrr. apply running_runs_on in Hrr as (fh & Hfh & Hro).
+        rewrite (Hno _ fh Hfh) in Hro. done. }
+      split; [done|]. split; [congruence|]. split; [|unfold mem_tick; by rewrite Hn1]. intros hh Hhh Hlog.
+      destruct (ml_members _ _ _ HP s h Hh) as (_ & _ & _ & Hmem). destruct (Hmem rid _ Hm) as (_ & _ & fh & Hfh & _).
+      destruct (Hplog4 _ fh hh Hfh Hhh (s, rid) Hlog) as [lr Hk]. by rewrite (sd_nodata _ _ _ _ _ HB s rid Hl0 _ fh Hfh) in Hk.
+    - exfalso. destruct Hnone as [Hnone|Hnc0]; [|rewrite (Hnc0 h Hh) in Hm; done].
+      destruct (KF s rid n Hrec) as [? ?]. congruence. }
+  assert (Hstamp4 : ∀ s c rid n, d_view (f_db st4) !! s = Some c → s_reps c !! rid = Some n → r_tick n ≠ 0).
+  { intros s c rid n Hc Hn. destruct (Hcl s c rid n Hc Hn) as [?|(_ & ? & _)]; [lia|done]. }
+  assert (HR4 : PReady L P st4 t).
+  { split.
+    - exact HI4.
+    - intros s Hs. destruct (ml_viewdef _ _ _ HP4 s Hs) as [[sd Hsd] _]. destruct (ml_defined _ _ _ HP4 s sd Hsd) as (_ & _ & Happ). by exists sd.
+    - split; [lia|]. rewrite Htick4. fold t. lia.
+    - intros s c rid n Hc Hn. destruct (Hcl s c rid n Hc Hn) as [?|(? & ? & ? & _)]; [by left|by right; right].
+    - intros s r1 r2 H1 H2. destruct (sd_single _ _ _ _ _ HB _ _ H1) as [_ ->]. by destruct (sd_single _ _ _ _ _ HB _ _ H2) as [_ ->].
+    - intros s c r1 r2 n1 n2 Hc H1 H2 Hz1 Hz2.
+      destruct (Hcl s c r1 n1 Hc H1) as [?|(_ & ? & _)]; [lia|done].
+    - intros s rid Hl0. destruct (sd_single _ _ _ _ _ HB _ _ Hl0) as [-> _]. unfold shard_size. rewrite Hsh4. unfold shard_size in Hsz0. lia. }
+  (* the entry of s0 *)
+  assert (Hh04 : f_hist st4 !! s0 = Some h0) by (by rewrite Hhi4).
+  destruct (ml_members _ _ _ HP4 s0 h0 Hh04) as (c4 & Hc4 & _ & Hmem4).
+  destruct (calm_view st4 s0 h0 c4 HI4 Hh04 Hc4 (Hcur4 s0 h0 c4 Hh04 Hc4)) as (HM4 & Hid4 & Hids4).
+  assert (Hc4e : c4 ∈ entries C) by (unfold entries, C, ctx_of_db; cbn [c_view]; apply elem_of_mvals; by exists s0).
+  assert (Hf0m : <[x := tt]> M !! f0 = M !! f0) by (apply lookup_insert_ne; intros ->; destruct Hf0in; congruence).
+  assert (is_Some (s_reps c4 !! f0)) as [nf Hnf].
+  { rewrite <- (fmap_is_Some r_addr), <- lookup_fmap, HM4. unfold h0. cbn [cur_members snd]. by rewrite Hf0m. }
+  assert (Hnw : ∀ c, c ∈ entries C → sr_wait P C c = []).
+  { intros c Hc. destruct (lostp_entry L P Ldec st4 t c HR4 Hc) as (h & sd & Hh & Hvc & _ & _ & _ & _ & Hw & _). fold C in Hw.
+    destruct (sr_wait P C c) as [|nw lw] eqn:Ew; [done|]. exfalso.
+    pose proof (Hw nw ltac:(left)) as Hz. assert (Hnw : nw ∈ sr_wait P C c) by (rewrite Ew; left).
+    apply elem_sr_wait in Hnw as [Hnw _]. apply elem_of_mvals in Hnw as [rid Hrid]. by apply (Hstamp4 _ c rid nw Hvc). }
+  assert (Hnffail : nf ∈ sr_failed P C c4).
+  { apply elem_sr_failed. split; [apply elem_of_mvals; by exists f0|].
+    destruct (Hcl s0 c4 f0 nf Hc4 Hnf) as [Ht|(_ & Hnz & _ & Hmt)].
+    - exfalso. assert (Hrec : rec_of (d_view (f_db st4)) s0 f0 = Some nf) by (apply rec_of_Some; eauto).
+      destruct (Hrec4 s0 f0 nf Hrec) as [(n1 & Hn1 & _ & [[(a & fh & Hfh & Hro) _]|[_ Htn]])|([Hnone|Hnc0] & _)].
+      + unfold runs_on in Hro. by rewrite (sd_nodata _ _ _ _ _ HB s0 f0 (sd_lost _ _ _ _ _ HB) a fh Hfh) in Hro.
+      + unfold mem_tick in Hover. rewrite Hn1 in Hover. lia.
+      + destruct (KF s0 f0 nf Hrec) as [? ?]. congruence.
+      + specialize (Hnc0 h0 Hh0). unfold h0 in Hnc0. cbn [cur_members snd] in Hnc0. rewrite Hf0m in Hnc0. destruct Hf0in. congruence.
+    - unfold replica_failed. assert ((r_tick nf =? 0) = false) as -> by (by apply N.eqb_neq).
+      unfold entity_failed. apply N.ltb_lt. unfold C, ctx_of_db. cbn [c_tick]. rewrite Htick4, Hmt. fold t. lia. }
+  assert (Hact4 : has_restore P C c4 = false ∧ repair_action P C c4 = ADelete).
+  { destruct (lostp_entry L P Ldec st4 t c4 HR4 Hc4e) as (h & sd & _ & _ & _ & _ & Hhr & _ & _ & _ & _ & Hadd). fold C in Hhr, Hadd. split; [done|].
+    destruct (Hadd (Hnw c4 Hc4e)) as [_ Hdel]; [intros Hnil; rewrite Hnil in Hnffail; by apply elem_of_nil in Hnffail|]. apply Hdel.
+    rewrite Hid4, <- (map_size_fmap r_addr), HM4. unfold h0. cbn [cur_members snd]. rewrite map_size_insert_None by done.
+    unfold shard_size. rewrite Hsh4. unfold shard_size in Hsz0. lia. }
+  destruct Hact4 as [Hhr4 Hact4].
+  (* what the batch consists of *)
+  assert (Hkinds : ∀ q, q ∈ b → is_kill q = true ∨ (is_delete q = true ∧ q_shard q = s0 ∧ delete_req_ok P C c4 q = true)).
+  { intros q Hq. destruct (batch_request_cases P C b q Hal Hq) as [Hk|(_ & c & qs & Hc & Hs & Hinq & Hg & _)]; [left; by apply (kills_are_kill C)|].
+    destruct (lostp_entry L P Ldec st4 t c HR4 Hc) as (h & sd & Hh & Hvc & _ & _ & Hhr & Hfl & _ & _ & Hnone & _). fold C in Hhr, Hfl, Hnone.
+    apply group_allowed_inv in Hg as [(Hhr' & _)|(_ & Hcases)]; [congruence|].
+    destruct (sr_failed P C c) as [|nf1 l0] eqn:Ef.
+    - rewrite (Hnone (Hnw c Hc) eq_refl) in Hcases. destruct Hcases as [[_ ->]|[(? & _)|[(? & ? & _)|(? & _)]]]; try done. by apply elem_of_nil in Hinq.
+    - destruct (Hfl nf1 ltac:(left)) as [Hlf _]. destruct (sd_single _ _ _ _ _ HB _ _ Hlf) as [Hs0 _].
+      rewrite Hs0 in Hvc. assert (c = c4) as -> by congruence. rewrite Hact4 in Hcases.
+      destruct Hcases as [[? _]|[(_ & q' & -> & Hok)|[(? & ? & _)|(? & _)]]]; try done.
+      apply elem_of_list_singleton in Hinq as ->. right. pose proof Hok as Hok'. unfold delete_req_ok in Hok'. apply bool_decide_eq_true in Hok' as (Hd & Hsh & _).
+      split; [done|]. split; [by rewrite Hsh|done]. }
+  assert (Hvalid : ∀ q, q ∈ b → valid_req q = true).
+  { intros q Hq. apply allowed_batch_inv in Hal as (_ & _ & _ & _ & _ & Hv). rewrite Forall_forall in Hv. by apply Hv. }
+  assert (E' : fstep P st4 (ESchedule (OBatch b)) = FOk st5) by (cbn [fstep]; fold C; by rewrite Hal).
+  pose proof (step_inv P st4 _ st5 HI4 Hfr E') as HI5.
+  pose proof (fstep_time_ok P st4 _ st5 E' (ml_timeok _ _ _ HP4)) as Hto5.
+  assert (Hst5 : f_hosts st5 = f_hosts st4 ∧ f_hist st5 = f_hist st4 ∧
+                 f_db st5 = set_requests (f_db st4) (put_requests (d_requests (f_db st4)) b)).
+  { destruct b as [|q0 b0].
+    - injection E5 as <-. split; [done|]. split; [done|]. destruct st4 as [d ? ? ?]. cbn. by destruct d.
+    - rewrite (schedule_db P st4 (q0 :: b0) HI4 Hal) in E5 by (intros y Hy; destruct Hfr as [_ Hfr]; by apply Hfr).
+      injection E5 as <-. done. }
+  destruct Hst5 as (Eh & Ehi & Ed).
+  assert (Hnew : ∀ q, q ∈ b → nonout st5 (q_raft q) q).
+  { intros q Hq. left. exists (for_addr (q_raft q) b). rewrite Ed. cbn [set_requests d_requests]. rewrite put_requests_lookup.
+    rewrite bool_decide_eq_true_2 by (unfold mentions; apply elem_of_list_fmap; by exists q). split; [done|]. unfold for_addr. apply elem_of_list_filter. done. }
+  assert (Hsplit : ∀ a q, nonout st5 a q → nonout st4 a q ∨ (q ∈ b ∧ q_raft q = a)).
+  { intros a q [(qs & Hl0 & Hi0)|(fh & Hl0 & Hi0)]; [|left; right; exists fh; by rewrite <- Eh].
+    rewrite Ed in Hl0. cbn [set_requests d_requests] in Hl0. rewrite put_requests_lookup in Hl0. case_bool_decide as Hm; [|left; left; eauto].
+    injection Hl0 as <-. unfold for_addr in Hi0. apply elem_of_list_filter in Hi0 as [Hra Hi0]. by right. }
+  assert (Hview5 : d_view (f_db st5) = d_view (f_db st4)) by (by rewrite Ed).
+  assert (Hmem_eq : ∀ s rid a, member st5 s rid a ↔ member st s rid a).
+  { intros s rid a. unfold member. by rewrite Ehi, Hhi4. }
+  assert (Hnocreate : ∀ a q, nonout st5 a q → is_create q = false).
+  { intros a q Hq. destruct (Hsplit a q Hq) as [Hq4|[Hqb _]].
+    - destruct (is_create q) eqn:Ec; [|done]. exfalso. pose proof (Hnoh4 a q Hq4) as Hno.
+      destruct (Hin4 a q Hq4) as [[_ Hc]|(_ & _ & _ & [fh Hfh])]; [|congruence]. destruct (Hc Ec) as [_ [fh Hfh]]. congruence.
+    - destruct (Hkinds q Hqb) as [Hk|[Hd _]]; [unfold is_kill in Hk|unfold is_delete in Hd]; unfold is_create; by destruct (q_type q). }
+  (* the DELETE is a live change request *)
+  assert (Hdel2 : ∀ q, q ∈ b → is_delete q = true →
+            lchange (nonout st5) (f_hosts st5) (f_hist st5) (q_raft q) q ∧ vready (f_db st5) q ∧ q_members q = [f0] ∧
+            ∃ m, member st5 s0 m (q_raft q) ∧ ¬ L s0 m).
+  { intros q Hqb Hd0. destruct (Hkinds q Hqb) as [Hk|(Hd & Hs & Hok)]; [unfold is_kill in Hk; unfold is_delete in Hd0; by destruct (q_type q)|].
+    unfold delete_req_ok in Hok. apply bool_decide_eq_true in Hok as (_ & Hsh & Hfence & Hexf & Hexok & _).
+    apply Exists_exists in Hexf as (nf1 & Hnf1 & Hmem1). apply Exists_exists in Hexok as (m & Hm & Hra).
+    destruct (lostp_entry L P Ldec st4 t c4 HR4 Hc4e) as (_ & _ & _ & _ & _ & _ & _ & Hfl & _). fold C in Hfl.
+    destruct (Hfl nf1 Hnf1) as [Hl1 _]. rewrite Hid4 in Hl1. destruct (sd_single _ _ _ _ _ HB _ _ Hl1) as [_ Hid1]. rewrite Hid1 in Hmem1.
+    apply elem_sr_ok in Hm as [Hm Hmok]. apply elem_of_mvals in Hm as [rm Hrm].
+    assert (Hmm : cur_members h0 !! rm = Some (r_addr m)) by (rewrite <- HM4, lookup_fmap, Hrm; done).
+    assert (Hrmf : rm ≠ f0).
+    { intros ->. assert (m = nf) as -> by congruence. apply elem_sr_failed in Hnffail as [_ Hff].
+      unfold replica_ok in Hmok. rewrite Hff in Hmok. done. }
+    pose proof (Hvalid q Hqb) as Hv. unfold valid_req in Hv. unfold is_delete in Hd. destruct (q_type q) eqn:Ety; try done.
+    rewrite Hmem1 in Hv. apply andb_true_iff in Hv as [_ Hv5]. apply andb_true_iff in Hv5 as [Hy0 Hs0']. apply negb_true_iff, N.eqb_neq in Hy0, Hs0'.
+    assert (Hhof : hist_of (f_hist st5) (q_shard q) = h0) by (unfold hist_of; by rewrite Ehi, Hs, Hh04).
+    split; [|split; [|split]].
+    - split; [unfold is_change, is_add, is_delete; by rewrite Ety|]. split; [rewrite Hhof, Hfence; by apply (Hcur4 s0)|]. split.
+      { split; [|done]. destruct (Hmem4 rm _ Hmm) as (_ & _ & fh & Hfh & _). rewrite Eh, Hra. by eexists. }
+      split; [intros a' q' Hq' Hcq'; by rewrite (Hnocreate a' q' Hq') in Hcq'|]. split.
+      + intros Ha. unfold is_add in Ha. by rewrite Ety in Ha.
+      + intros _. exists f0. split; [done|]. split; [done|]. split; [done|]. rewrite Hhof, Hra. intros Hf0a.
+        apply Hrmf. pose proof (li_hist _ _ _ _ _ HI4 s0 h0 Hh04) as Hw4.
+        destruct (hist_wf_mem_ok _ _ Hw4 (cur_version h0, cur_members h0) ltac:(left)) as [_ Hinj]. cbn [snd] in Hinj. by apply (Hinj rm f0 (r_addr m)).
+    - exists c4. rewrite Hview5, Hs. split; [done|]. split; [done|]. intros rid n Hn. by apply (Hstamp4 s0 c4 rid n).
+    - done.
+    - exists rm. split; [exists h0; rewrite Ehi, Hra; done|]. intros Hlm. by destruct (sd_single _ _ _ _ _ HB _ _ Hlm) as [_ ?]. }
+  assert (Hall : ∀ a q, nonout st5 a q → pendD s0 st5 a q).
+  { intros a q Hq. destruct (Hsplit a q Hq) as [Hq4|[Hqb <-]].
+    { left. unfold pendI. rewrite Ehi, Eh. split.
+      - destruct (Hin4 a q Hq4) as [[Hm _]|(Hg & _)]; [done|by right; left].
+      - intros Hcq. rewrite (Hnocreate a q Hq) in Hcq. done. }
+    destruct (Hkinds q Hqb) as [Hk|(Hd & Hs & Hok)].
+    - left. split; [|intros Hcq; unfold is_kill in Hk; unfold is_create in Hcq; by destruct (q_type q)].
+      assert (Hbox : in_box (f_db st5) (f_hosts st5) [] q) by (destruct (Hnew q Hqb) as [(qs & ? & ?)|(fh & ? & ?)]; [left; eauto|right; right; left; eauto]).
+      destruct (li_reqs _ _ _ _ _ HI5 q Hbox) as [_ Hreq]. unfold is_kill in Hk. destruct (q_type q) eqn:Ety; try done.
+      destruct Hreq as (y & Hy & Hdd). left; right; right. split; [unfold is_kill; by rewrite Ety|]. exists y. split; [done|].
+      intros h Hh. by destruct (Hdd h Hh).
+    - right. destruct (Hdel2 q Hqb Hd) as (? & ? & _). done. }
+  split; [|split; [congruence|rewrite Ed; cbn [set_requests d_tick]; exact Htick4]].
+  split.
+  - split; [exact HI5|]. split.
+    + destruct HP4. split; try rewrite Ed; try rewrite Eh; try rewrite Ehi; cbn [set_requests d_tick d_shards d_view d_kill]; try done.
+      all: try (rewrite Ed in Hto5; exact Hto5).
+      intros a q Hq. destruct (Hall a q Hq) as [[Hm _]|(_ & _ & Hl0 & Hv)].
+      * left. rewrite Ehi in Hm. split; [done|]. rewrite <- Ehi. by apply (nonout_qextra st5 a q).
+      * right. rewrite Eh, Ehi in Hl0. rewrite Ed in Hv. done.
+    + intros a Ha. rewrite Eh. apply Hoh4. rewrite Ed in Ha. exact Ha.
+  - intros s h c Hh Hc. rewrite Ehi in Hh. rewrite Hview5 in Hc. by apply (Hcur4 s).
+  - exact Hall.
+  - destruct (sched_delete_complete P C b c4 Hal Hc4e Hhr4 Hact4) as (q & Hq & Hsq & Hok).
+    assert (Hd : is_delete q = true) by (unfold delete_req_ok in Hok; by apply bool_decide_eq_true in Hok as (? & _)).
+    destruct (Hdel2 q Hq Hd) as (Hl0 & _ & Hmq & m & Hmm & HnLm).
+    exists (q_raft q), q, m. split; [by apply Hnew|]. split; [done|]. split; [by rewrite Hsq|]. done.
+  - apply (sd_single _ _ _ _ _ HB).
+  - apply (sd_lost _ _ _ _ _ HB).
+  - exists v, M, hs0. rewrite Ehi, Hhi4. split; [done|]. split; [done|]. split; [|done].
+    unfold shard_size. rewrite Ed. cbn [set_requests d_shards]. rewrite Hsh4. exact Hsz0.
+  - intros s c rid n Hc Hn. rewrite Hview5 in Hc. by apply (Hstamp4 s c rid n).
+  - intros s rid Hl0 a fh Hfh. rewrite Eh in Hfh. destruct (fh_reps fh !! (s, rid)) as [lr|] eqn:Ek; [|done]. exfalso.
+    destruct (Hkeys4 a fh (s, rid) Hfh ltac:(by eexists)) as [(fh0 & Hfh0 & [lr0 Hk0])|Heq].
+    + by rewrite (sd_nodata _ _ _ _ _ HB s rid Hl0 a fh0 Hfh0) in Hk0.
+    + injection Heq as -> ->. destruct (sd_single _ _ _ _ _ HB _ _ Hl0) as [_ ->]. destruct Hf0in as [? ?]. congruence.
+  - intros s rid a Hm HnL. rewrite Eh. apply Hmem_eq in Hm.
+    apply Hrun4; [destruct Hm as (h & Hh & Hma); exists h; split; [done|by eexists]|].
+    destruct (decide ((s, rid) = (s0, x))) as [Heq|Hneq].
+    { injection Heq as -> ->. destruct Hm as (h & Hh & Hma). rewrite Hh0 in Hh. injection Hh as <-. unfold h0 in Hma. cbn [cur_members snd] in Hma.
+      rewrite lookup_insert in Hma. injection Hma as <-. apply (sd_xrun _ _ _ _ _ HB). }
+    apply (sd_run _ _ _ _ _ HB s rid a Hm HnL).
+    destruct Hm as (h & Hh & Hma). destruct (ml_members _ _ _ HP s h Hh) as (c & Hc & _).
+    destruct (calm_view st s h c HI Hh Hc (sd_cur _ _ _ _ _ HB s h c Hh Hc)) as (HM & _).
+    assert (is_Some (s_reps c !! rid)) as [n1 Hn1] by (rewrite <- (fmap_is_Some r_addr), <- lookup_fmap, HM, Hma; by eexists).
+    exists n1. split; [apply rec_of_Some; eauto|]. by apply (sd_stamped _ _ _ _ _ HB s c rid n1).
+  - intros a fh s rid lr Hfh Hk. rewrite Eh in Hfh. destruct (Hkeys4 a fh (s, rid) Hfh ltac:(by eexists)) as [(fh0 & Hfh0 & [lr0 Hk0])|Heq].
+    + destruct (sd_clean _ _ _ _ _ HB a fh0 s rid lr0 Hfh0 Hk0) as (b0 & Hm0). exists b0. by apply Hmem_eq.
+    + injection Heq as -> ->. exists tt, h0. rewrite Ehi. split; [done|]. unfold h0. cbn [cur_members snd]. by rewrite lookup_insert.
+  - intros a Ha. rewrite Ed in Ha. cbn [set_requests d_hosts] in Ha. rewrite Eh. apply Hdom4. destruct (Hdbk4 a Ha) as [?|?]; [done|by apply (sd_dbhosts _ _ _ _ _ HB)].
+Qed.
+
 
 
 End StageB.
